@@ -134,6 +134,14 @@ def check_scenario(prop, ops, preds, cut_at, sobs, res, meta, sid, reg_cache=Non
         if i >= len(oobs):
             break
         if cut_at is not None and (i > cut_at or (i == cut_at and pr.cut_self)):
+            # beyond the statements' territory: only the model-independent severity rule still applies
+            # (fatal from calls, non-fatal from destroying operations)
+            want = 'F' if op[0] == 'call' else 'N'
+            for (tag, sev, f, line, msg) in oobs[i].reports:
+                if sev != want:
+                    mm = oracle.Mismatch('report.severity', {'after_cut'}, '%s report during %s (after the history left the modelled territory): %r' % (sev, op[0], msg[:100]), 'after-cut')
+                    if prop in oracle.owners(mm):
+                        viol.append(dict(aspect=mm.aspect, key=viol_key(prop, mm), detail=mm.detail, op_index=i, ctx=sorted(mm.ctx), predicted=None, observed=_obs_summary(oobs[i])))
             continue
         if desync:
             continue
